@@ -3,6 +3,7 @@
 package main
 
 import (
+	"context"
 	"errors"
 	"fmt"
 	"os"
@@ -132,7 +133,7 @@ func pebble2Backend(disk bool) Backend {
 			if err := p.Flush(); err != nil {
 				return err
 			}
-			return p.Compact(nil, []byte{}, []byte{0xff, 0xff, 0xff, 0xff, 0xff}, true)
+			return p.Compact(context.Background(), []byte{}, []byte{0xff, 0xff, 0xff, 0xff, 0xff}, true)
 		}}, nil
 	}}
 }
@@ -503,10 +504,10 @@ func (w *World) exec(o Op) string {
 			return tf(r) + " " + cur(it)
 		case "key":
 			k := it.Key()
-			if k == nil {
+			if k == nil && !it.Valid() {
 				return "nil"
 			}
-			return "key:" + hx(k)
+			return "key:" + hx(k) // (valid iterator on the empty key: nil and empty are the same key)
 		case "value":
 			var v []byte
 			var err error
